@@ -22,8 +22,8 @@
    ExtractProofs.v as Section variables with contracts.
 
    A parameter struct is a list of fields [spec]; a field is a scalar (required /
-   [Option] / [#[serde(default)]]), a [Vec<String>] (the wildcard path
-   variable), or [KStub]: a field whose [Deserialize] impl calls one of
+   [Option] / [#[serde(default)]]), a [Vec<T>] of string-schema scalars (the
+   wildcard path variable), or [KStub]: a field whose [Deserialize] impl calls one of
    from_map's [unimplemented!] entry points (unit, tuple, bytes, enum variants
    with data) - present only so that "registration rules it out" is a theorem
    and not a convention.
@@ -40,7 +40,7 @@ Inductive presence :=
 
 Inductive fkind :=
 | KScalar (t : sty) (p : presence)
-| KSeq                 (* Vec<String> *)
+| KSeq (t : sty)       (* Vec<T>, T a string-schema scalar: the wildcard path variable *)
 | KStub.
 
 Definition spec := list (str * fkind).
@@ -48,7 +48,7 @@ Definition spec := list (str * fkind).
 Inductive fval :=
 | FvOne (v : sval)
 | FvOpt (o : option sval)
-| FvSeq (l : list str).
+| FvSeq (l : list sval).
 
 (* deserialisation errors (serde::de::Error values; every one becomes a 400) *)
 Inductive merr :=
@@ -185,15 +185,25 @@ Definition from_map_scalar (t : sty) (v : varval) : res merr sval :=
   | _ => match parse_scalar t s with Some x => Ok x | None => Err MParse end
   end.
 
+Fixpoint from_map_elems (t : sty) (l : list str) : res merr (list sval) :=
+  match l with
+  | [] => Ok []
+  | s :: l' => do x <- from_map_scalar t (VOne s); do xs <- from_map_elems t l'; Ok (x :: xs)
+  end.
+
 Definition from_map_field (kind : fkind) (v : varval) : res merr fval :=
   match kind with
   | KScalar t POpt =>
       (* deserialize_option: "None is a missing field, so this must be Some" *)
       do x <- from_map_scalar t v; Ok (FvOpt (Some x))
   | KScalar t _ => do x <- from_map_scalar t v; Ok (FvOne x)
-  | KSeq =>
-      (* deserialize_seq: as_seq()?, each element a String *)
-      do l <- as_seq v; Ok (FvSeq l)
+  | KSeq t =>
+      (* deserialize_seq: as_seq()?, then the Vec visitor:
+           while let Some(value) = seq.next_element()? { values.push(value) }
+         with MapSeqAccess::next_element_seed deserialising each element from
+         MapDeserializer::Value(element): the FIRST element that fails fails
+         the whole extraction *)
+      do l <- as_seq v; do xs <- from_map_elems t l; Ok (FvSeq xs)
   | KStub => Err MStub
   end.
 
@@ -319,7 +329,7 @@ Definition urlenc_field (kind : fkind) (s : str) : res merr fval :=
   match kind with
   | KScalar t POpt => do x <- urlenc_scalar t s; Ok (FvOpt (Some x))   (* visit_some *)
   | KScalar t _ => do x <- urlenc_scalar t s; Ok (FvOne x)
-  | KSeq => Err MInvalidType      (* seq -> deserialize_any -> visit_str on a Vec visitor *)
+  | KSeq _ => Err MInvalidType    (* seq -> deserialize_any -> visit_str on a Vec visitor *)
   | KStub => Err MInvalidType     (* unit/tuple/.. -> deserialize_any -> visit_str *)
   end.
 
